@@ -259,6 +259,16 @@ def generate(tier, seed):
         rep = G.repertoire(rng, rng.randint(5, 30), lo=2, hi=6)
         yield "pairs", {"seqs": rep, "alphabet": G.AA, "mode": "ham", "default_nb": True}, i < 3
         yield "numbers", {"seqs": rep, "reference": None, "alphabet": G.AA, "mode": "lev", "default_nb": True}, i < 3
+    # nndist_hamming on a binary-letter universe: every (seq, single reference) pair, so letters of seq recur in the reference
+    bin4 = G.universe("AC", 4, 3)
+    cnt = 0
+    for a in bin4:
+        for b in bin4:
+            if len(a) != len(b):
+                continue
+            cnt += 1
+            if thorough or cnt % 3 == 0 or O.ham(a, b) == 3:
+                yield "nndist", {"seq": a, "reference": [b], "maxdist": 4 if O.ham(a, b) >= 3 else 1 + cnt % 4}, True
     # nndist_hamming: reference sets built at controlled distances
     n_d = 3000 * TS if thorough else 160
     for i in range(n_d):
